@@ -208,6 +208,8 @@ func behavEnc(b Behav) string {
 		f = fmt.Sprintf("C%d", b.Pad)
 	case "D":
 		f = "D"
+	case "E":
+		f = fmt.Sprintf("E%d.%d", b.Pad, b.Post)
 	}
 	return f + "," + esc(b.Msg) + "," + esc(b.Out)
 }
